@@ -27,7 +27,7 @@ let cc = {
   d_level = cnum h "d_level"; ds_min = cnum h "ds_min"; ds_max = cnum h "ds_max"; ds_def = cnum h "ds_def";
   log_min = cnum h "log_min"; log_max = cnum h "log_max"; log_def = cnum h "log_def";
   conf_header = cbytes h "conf_header"; conf_section = cbytes h "conf_section"; conf_assign = cbytes h "conf_assign";
-  conf_quote = cbool h "conf_quote"; conf_cont = cbool h "conf_cont"; conf_cont_sep = cbytes h "conf_cont_sep";
+  conf_quote = cbool h "conf_quote"; conf_cont = cbool h "conf_cont"; conf_cont_sep = cbytes h "conf_cont_sep"; conf_cont_ws = cbytes h "conf_cont_ws"; conf_cont_marks = cbytes h "conf_cont_marks";
   doc_options = List.map unhex (clist h "doc_options"); doc_fac = List.map str_num (clist h "doc_fac"); doc_lvl = List.map str_num (clist h "doc_lvl");
   doc_ds_min = cnum h "doc_ds_min"; doc_ds_max = cnum h "doc_ds_max"; doc_ds_def = cnum h "doc_ds_def";
   doc_log_min = cnum h "doc_log_min"; doc_log_max = cnum h "doc_log_max"; doc_log_def = cnum h "doc_log_def" }
